@@ -80,13 +80,27 @@ def make_source(kind, data, fmt, tmpdir, rng):
     rate, width, channels = fmt
     if kind == "buffer":
         return BufferAudioSource(data, rate, width, channels), (lambda: None)
+    through_link = rng.random() < 0.25
     if kind == "raw":
         path = os.path.join(tmpdir, "s.raw")
+        if through_link:
+            from .. import audiocommon as AC_
+
+            path, decoy = AC_.path_through_symlink(tmpdir, "s.raw")  # <tmp>/lnk/../s.raw is <tmp>/deep/s.raw, whatever a string clean-up thinks
+            with open(decoy, "wb") as fp:
+                fp.write(bytes(len(data) + width * channels))
         with open(path, "wb") as fp:
             fp.write(data)
         return RawAudioSource(path, rate, width, channels), (lambda: None)
     if kind == "wav":
         path = os.path.join(tmpdir, "s.wav")
+        if through_link:
+            from .. import audiocommon as AC_
+
+            path, decoy = AC_.path_through_symlink(tmpdir, "s.wav")
+            with wave.open(decoy, "wb") as fp:
+                fp.setframerate(rate), fp.setsampwidth(width), fp.setnchannels(channels)
+                fp.writeframes(bytes(len(data) + width * channels))
         with wave.open(path, "wb") as fp:
             fp.setframerate(rate)
             fp.setsampwidth(width)
